@@ -11,7 +11,7 @@ BOUNDS = dict(signatures = 'every signature with 0..3 positional parameters (tho
               calls = 'every valid call: the split between positional and keyword passing, which defaulted parameters are supplied, 0..2 extra positionals (*args) and 0..2 extra keywords (**kwargs) '
                       'are solver-chosen selectors; argument values are arbitrary ints',
               stacks = 'single decorators and all stacks of 2 (thorough 3) from try_none, try_zero, try_back, kwargs_support, cache, loops(list), pd2np; cached call histories of <= 3 calls (thorough 4) '
-                       'with arguments from {0, 1}')
+                       'with arguments from {0, 1} (and {-1, -2}, whose hashes collide in CPython)')
 OUTSIDE = ['keyword-only parameters', 'arguments that are unequal but collapse under the cache\'s own list -> tuple normalisation', 'container / pandas arguments to loops and pd2np (C19 / C03)',
            'timer, do_if, kwpartial']
 ASSUMPTIONS = ['f returns the tuple of everything it was bound to, so equality of results means equality of the whole binding', 'oracles: the bare f and inspect.getcallargs']
@@ -22,7 +22,7 @@ def make(npos, ndef, varargs, varkw, raises = False, none_result = False):
     if varargs: params.append('*args')
     if varkw: params.append('**kw')
     body = 'CALLS.append(1)\n'
-    if raises: body += '    if %s: raise ValueError("boom")\n' % ('a is None or a > 5' if npos else 'False')
+    if raises: body += '    if %s: raise ValueError(%s)\n' % ('a is None or a > 5' if npos else 'False', '' if raises == 'no-message' else '"boom"')
     ret = '(%s%s%s)' % (''.join(n + ', ' for n in names), 'args, ' if varargs else '', 'tuple(sorted(kw.items())), ' if varkw else '')
     if none_result: body += '    if %s: return None\n' % ('a == 0' if npos else 'True')
     src = 'def f(%s):\n    %s    return %s\n' % (', '.join(params), body, ret if ret != '()' else '()')
@@ -131,6 +131,22 @@ def h_try(sig, which):
             c.check('fallback-exactly-when-f-raises', same(got, first) if fb == 'first' else same(got, fb))
     return h
 
+def h_try_verbose(sig, value):
+    """the documented verbose option only logs: the fallback is returned exactly when f raises, also for exceptions that carry no message"""
+    def h(c):
+        from pyg_base._decorators import try_value
+        import logging; logging.disable(logging.CRITICAL)
+        flavour = c.pick('raise', ['boom', 'no-message'])
+        f, calls, names = make(*sig, raises = flavour)
+        w = try_value(f, value = value, verbose = True)
+        args, kwargs = a_call(c, *sig)
+        try: want = ('ok', f(*args, **dict(kwargs)))
+        except ValueError: want = ('raised', None)
+        got = w(*args, **dict(kwargs))
+        c.cover('f-raises', want[0] == 'raised')
+        c.check('verbose-wrapper-returns-f-s-result-or-the-fallback', same(got, want[1]) if want[0] == 'ok' else same(got, value))
+    return h
+
 def h_kwargs_support(sig):
     def h(c):
         D = decorators()
@@ -142,7 +158,8 @@ def h_kwargs_support(sig):
         c.check('ignores-exactly-the-undeclared-keywords', same(got, f(*args, **dict(kwargs))))
     return h
 
-def h_cache(sig, ncalls, none_result):
+def h_cache(sig, ncalls, none_result, pool = (0, 1)):
+    pool = list(pool)
     def h(c):
         from pyg_base import cache
         f, calls, names = make(*sig, none_result = none_result)
@@ -151,8 +168,8 @@ def h_cache(sig, ncalls, none_result):
         for i in range(ncalls):
             npos, ndef, va, vk = sig
             p = c.choice('c%d.npos' % i, npos + 1)
-            args = [c.pick('c%d.%s' % (i, names[j]), [0, 1]) for j in range(p)]
-            kwargs = {names[j]: c.pick('c%d.%s' % (i, names[j]), [0, 1]) for j in range(p, npos) if j < npos - ndef or c.choice('c%d.give.%s' % (i, names[j]), 2)}
+            args = [c.pick('c%d.%s' % (i, names[j]), pool) for j in range(p)]
+            kwargs = {names[j]: c.pick('c%d.%s' % (i, names[j]), pool) for j in range(p, npos) if j < npos - ndef or c.choice('c%d.give.%s' % (i, names[j]), 2)}
             if vk and c.choice('c%d.kw' % i, 2): kwargs['k1'] = c.pick('c%d.k1' % i, [0, 1])
             if len(kwargs) >= 2 and c.choice('c%d.reversed' % i, 2): kwargs = dict(reversed(list(kwargs.items())))      # the same keywords written in another order are the same combination
             key = (tuple(args), tuple(sorted(kwargs.items())))
@@ -187,6 +204,9 @@ def obligations(tier):
         obs.append(Ob('callargs.%s' % sid(s), h_callargs(s), budget_s = 120, desc = 'getcallargs == inspect.getcallargs and call_with_callargs round trip, signature %s' % sid(s)))
         if s[0]: obs.append(Ob('try.%s' % sid(s), h_group([h_try(s, d) for d in ['try_none', 'try_zero', 'try_back']]), budget_s = 300, desc = 'try_none / try_zero / try_back return their fallback exactly when f raises, signature %s' % sid(s)))
         if not s[3]: obs.append(Ob('kwargs_support.%s' % sid(s), h_kwargs_support(s), budget_s = 120, desc = 'kwargs_support drops exactly the undeclared keywords, signature %s' % sid(s)))
+    for sg in [(1, 0, False, False), (2, 1, False, True)]:
+        for value in (None, 0):
+            obs.append(Ob('try.verbose.%s.%s' % (sid(sg), value), h_try_verbose(sg, value), budget_s = 120, desc = 'try_value(f, value = %s, verbose = True): fallback exactly when f raises (with or without a message), signature %s' % (value, sid(sg))))
     ssigs = [(2, 1, False, False), (2, 1, True, True)] if q else [(2, 1, False, False), (2, 1, True, True), (1, 0, False, True), (3, 2, True, False)]
     for d0 in names:
         for s in ssigs:
@@ -201,4 +221,6 @@ def obligations(tier):
         for nr in (False, True):
             obs.append(Ob('cache.%s.%s' % (sid(s), 'none-results' if nr else 'plain'), h_cache(s, (2 if s[3] else 3) if q else (3 if s[3] else 4), nr), budget_s = 300 if q else 2400,
                           desc = 'cached f is evaluated once per distinct combination of positional and keyword arguments as passed (%s)' % ('f returns None for some arguments' if nr else 'plain')))
+    for s_ in [(1, 0, False, False), (2, 1, False, False)]:
+        obs.append(Ob('cache.%s.colliding-hashes' % sid(s_), h_cache(s_, 2, False, (-1, -2)), budget_s = 300, desc = 'cached f with arguments -1 and -2 (equal hash() in CPython, different values): still one evaluation per distinct combination'))
     return obs
